@@ -18,9 +18,9 @@ func c15Types(c *harness.Ctx) []ref.AnnTy {
 	anns := gen.Annotations(false)
 	var pool []*ref.Ty
 	if !c.Thorough() {
-		pool = gen.Types(2, gen.TypeOpts{Names: []string{"A"}, Labels: []string{"l", "r"}, Shifts: gen.RepresentativeShifts})
+		pool = gen.Types(2, gen.TypeOpts{Names: []string{"A"}, Labels: []string{"l", "1r"}, Shifts: gen.RepresentativeShifts})
 	} else {
-		pool = gen.Types(2, gen.TypeOpts{Names: []string{"A"}, Labels: []string{"l", "r"}, Shifts: gen.AllShifts()})
+		pool = gen.Types(2, gen.TypeOpts{Names: []string{"A"}, Labels: []string{"l", "1r"}, Shifts: gen.AllShifts()})
 		lin := []gen.ShiftForm{{Up: true, From: ref.MLin, To: ref.MLin}, {Up: false, From: ref.MLin, To: ref.MLin}}
 		pool = append(pool, gen.Types(3, gen.TypeOpts{Names: nil, Labels: []string{"l"}, Shifts: lin})...)
 	}
@@ -34,7 +34,7 @@ const c15Chunk = 500
 func init() {
 	harness.Register(&harness.Check{
 		ID: "C15", Level: "exploration",
-		Rule:        "types: every type of depth <= 2 over 1, A, *, -*, +{l}, +{l,r}, &{l}, &{l,r} and 8 (quick) / all 32 (thorough) shift forms, plus depth-3 types over a reduced alphabet (thorough), under every head mode; only well-formed ones count; each is parsed by the real parser, printed with String(), re-parsed under the same head mode and compared structurally (modes, order of branches); terms: the body of every function (written with self) and multi-name process of every driver, example and generated program is printed with Form.String(), parsed back as a process body and compared with process.EqualForm, and must re-print identically; distinct_nontrivial = distinct well-formed (head mode, type) pairs with at least one binary or shift constructor",
+		Rule:        "types: every type of depth <= 2 over 1, A, *, -*, +{l}, +{l,1r}, &{l}, &{l,1r} (one label starts with the digit 1) and 8 (quick) / all 32 (thorough) shift forms, plus depth-3 types over a reduced alphabet (thorough), under every head mode; only well-formed ones count; each is parsed by the real parser, printed with String(), re-parsed under the same head mode and compared structurally (modes, order of branches); terms: the body of every function (written with self) and multi-name process of every driver, example and generated program is printed with Form.String(), parsed back as a process body and compared with process.EqualForm, and must re-print identically; distinct_nontrivial = distinct well-formed (head mode, type) pairs with at least one binary or shift constructor",
 		Assumptions: []string{"structural comparison on exported fields of the real type trees (converted to the reference representation)"},
 		Cases:       func(c *harness.Ctx) int { return (len(c15Types(c))+c15Chunk-1)/c15Chunk + (len(basePrograms(c))+c15Chunk-1)/c15Chunk },
 		Run: func(c *harness.Ctx, idx int, r *harness.Rec) {
